@@ -259,6 +259,18 @@ pub fn gen_font(rng: &mut Rng, size_class: u64) -> (String, Features) {
                     f.left_boundary_program = true;
                     nl += 1;
                 }
+                // a block without label after a STOP is unreachable: mostly avoid that (TFtoPL
+                // reports such steps in a comment, and a comment does not survive), keep a few
+                if nl == 0 && open_chain_labels == 0 && !rng.chance(1, 12) {
+                    match labelled.pop() {
+                        Some(c) => {
+                            out.push_str(&format!("   (LABEL {})\n", chr(rng, c)));
+                            nl += 1;
+                        }
+                        None if n > 0 => break,
+                        None => {}
+                    }
+                }
             }
             f.labels += nl;
             open_chain_labels += nl;
@@ -266,6 +278,14 @@ pub fn gen_font(rng: &mut Rng, size_class: u64) -> (String, Features) {
             // instructions of the block
             let k = rng.range_usize(1, 6).max(pending_skip_guard);
             for j in 0..k {
+                // inside the range a SKIP jumps over: usually label the step, else it is dead code
+                if pending_skip_guard > 1 && rng.chance(3, 4) {
+                    if let Some(c) = labelled.pop() {
+                        out.push_str(&format!("   (LABEL {})\n", chr(rng, c)));
+                        f.labels += 1;
+                        open_chain_labels += 1;
+                    }
+                }
                 let r = *rng.pick(&rights);
                 if !inserted.is_empty() && rng.chance(1, 2) {
                     let z = *rng.pick(&inserted);
